@@ -84,4 +84,42 @@ def modelTouches : List (String × List String) :=
    ("LayerContents.retain", ["layers.retain"]),
    ("LayerContents.remove_empty_layers", ["layers.retain"])]
 
+/-! ### two decisions of the source the operation histories depend on (section `decides` of the translator) -/
+
+/-- the two maps of a `Layer` that `insert_glyph` could ask whether a name already has a file -/
+inductive Index | glyphs | contents
+  deriving DecidableEq, Repr
+
+/-- how `LayerContents::load` builds the path set: `let path_set = <source>.iter().skip(<skip>).map(lower-cased
+    path).collect()`, standing after (or before) `layers.insert(0, default_layer)` -/
+structure LoadPathSet where
+  source : String
+  skip : Nat
+  afterDefaultMove : Bool
+  deriving DecidableEq, Repr
+
+/-- does the index hold the name? -/
+def Index.has (ix : Index) (L : Layer) (g : Str) : Bool :=
+  match ix with
+  | .contents => decide (g ∈ keys L.contents)
+  | .glyphs => decide (g ∈ L.glyphs)
+
+/-- `Layer::insert_glyph` with the index it asks as a parameter -/
+def insertGlyphBy (lower : Str → Str) (assignG : Str → List Str → Option Str) (ix : Index) (L : Layer) (g : Str) :
+    Layer × Res :=
+  if ix.has L g then
+    ({ L with glyphs := addGlyphName g L.glyphs }, .ok)
+  else
+    match assignG g L.pathSet with
+    | none => (L, .panic "99 file-name clashes (documented)")
+    | some p =>
+      ({ L with glyphs := addGlyphName g L.glyphs,
+                contents := (g, p) :: L.contents,
+                pathSet := lower p :: L.pathSet }, .ok)
+
+/-- the path set `LayerContents::load` builds, given the loaded layers in file order (`listed`) and after the default
+    layer has been moved to the front (`moved`) -/
+def loadPathSetOf (lower : Str → Str) (plan : LoadPathSet) (listed moved : List Layer) : List Str :=
+  ((if plan.afterDefaultMove then moved else listed).drop plan.skip).map (fun l => lower l.path)
+
 end Layers
